@@ -4,6 +4,8 @@
 mod gen;
 mod json;
 mod props;
+mod realpath;
+mod transcript;
 mod reflang;
 mod refnum;
 mod rng;
@@ -20,6 +22,8 @@ fn property(id: &str) -> Option<Box<dyn Property>> {
         "C01" => Some(Box::new(props::c01::C01)),
         "C02" => Some(Box::new(props::c02::C02)),
         "C10" => Some(Box::new(props::c10::C10)),
+        "C11" => Some(Box::new(props::c11::C11)),
+        "C12" => Some(Box::new(props::c12::C12)),
         _ => None,
     }
 }
@@ -36,6 +40,10 @@ struct Args {
     rest: Vec<String>,
 }
 
+pub fn home() -> String {
+    std::env::var("VERIF_HOME").unwrap_or_else(|_| "/verif".to_string())
+}
+
 fn parse_args() -> Args {
     let mut a = Args {
         cmd: String::new(),
@@ -47,8 +55,8 @@ fn parse_args() -> Args {
         replay: None,
         runs: None,
         trace: None,
-        evidence_dir: "/verif/evidence".into(),
-        replay_dir: "/verif/replays".into(),
+        evidence_dir: format!("{}/evidence", home()),
+        replay_dir: format!("{}/replays", home()),
         rest: Vec::new(),
     };
     let v: Vec<String> = std::env::args().skip(1).collect();
@@ -130,7 +138,7 @@ fn real_main() -> i32 {
 fn known_findings(id: &str) -> Vec<(String, String, String)> {
     // lines: "open: property=<id> clause=<clause> match=<substring of program text> <description>"
     let mut v = Vec::new();
-    if let Ok(s) = std::fs::read_to_string("/verif/KNOWN_FINDINGS.txt") {
+    if let Ok(s) = std::fs::read_to_string(format!("{}/KNOWN_FINDINGS.txt", home())) {
         for l in s.lines() {
             let l = l.trim();
             if !l.starts_with("open:") {
